@@ -1,6 +1,7 @@
 """C07 -- ranges follow the data through unit changes, so saturation gating commutes (E1, lattice)."""
 import itertools
 import os
+import shutil
 import warnings
 
 import numpy as np
@@ -101,6 +102,12 @@ def cases(tier, seed):
     for plot in (False, True):
         for amp in ('lin', 'log'):
             yield dict(kind='calibration-history', plot=plot, amp=amp)
+    # (C4) the conversions as the Excel workflow performs them (every pair of unit spellings on one integer file): the samples it returns
+    # carry limits that are where the limit events of the raw file now are, and no event at or beyond them is left
+    from . import c10 as _c10
+    upairs = list(itertools.product(range(len(_c10.UNITS)), repeat=2))
+    for i in range(0, len(upairs), 27):
+        yield dict(kind='workflow', pairs=upairs[i:i + 27])
     # (D) generic transform with NumPy functions
     for fn in ('log10', 'sqrt', 'double', 'log10p1', 'exp2'):
         yield dict(kind='transform', fn=fn)
@@ -212,10 +219,76 @@ def spell(sub, form, n=3):
     return [(j - n, 'CH%d' % (j + 1), j)[(i + j) % 3] for i, j in enumerate(sub)]
 
 
+def run_workflow(c, res):
+    import FlowCal
+    from . import c10 as _c10
+    ui = FlowCal.excel_ui
+    _WF[0] += 1
+    dd = os.path.join(scratch(), 'c07_wf_%d' % _WF[0])
+    os.makedirs(dd, exist_ok=True)
+    try:
+        wb, insts, beads, samples, hist = _c10.build_experiment(dict(kind='units', pairs=c['pairs'], cont='int', hist=False), dd)
+        it = ui.read_table(wb, 'Instruments', 'ID')
+        bt = ui.read_table(wb, 'Beads', 'ID')
+        st = ui.read_table(wb, 'Samples', 'ID')
+        np.random.seed(1)
+        bs, fx, outs = ui.process_beads_table(bt, it, base_dir=dd, verbose=False, plot=False, full_output=True)
+        ui.add_beads_stats(bt, bs, outs)
+        got = ui.process_samples_table(st, it, mef_transform_fxns=fx, beads_table=bt, base_dir=dd, verbose=False, plot=False)
+        inst = insts[0]
+        raw = FlowCal.io.FCSData(os.path.join(dd, samples[0]['file']))
+        for srow in samples:
+            g = got.get(srow['id'])
+            one = dict(c, pairs=[c['pairs'][samples.index(srow)]])
+            for ch in inst['fl']:
+                u = (srow['units'].get(ch) or '').strip().lower()
+                what = 'Excel workflow, sample row with units %r: channel %s' % (srow['units'], ch)
+                if isinstance(g, Exception) or g is None:
+                    res.violation('workflow:row-failed', '%s: the row failed with %s: %s' % (what, type(g).__name__, g), one)
+                    break
+                # the two limit events of the raw file, taken through the row's conversions by hand
+                probe = raw[:2].copy()
+                probe[0, :] = [r_[0] for r_ in raw.range()]
+                probe[1, :] = [r_[1] for r_ in raw.range()]
+                if u in ('rfi', 'a.u.', 'au', 'mef'):
+                    probe = FlowCal.transform.to_rfi(probe, ch)
+                if u == 'mef':
+                    probe = fx[srow['beads']](probe, ch)
+                want = [bits(float(probe[0, ch])), bits(float(probe[1, ch]))]
+                have = [bits(float(x)) for x in g.range(ch)]
+                if have != want:
+                    res.violation('workflow:limits', '%s has limits %r, the events at the raw limits %r are now at %r' % (
+                        what, list(g.range(ch)), raw.range(ch), [float(probe[0, ch]), float(probe[1, ch])]), one)
+                    break
+                if u:
+                    v = np.asarray(g[:, ch], dtype=float)
+                    lo_, hi_ = [float(x) for x in g.range(ch)]
+                    if v.size and (v.min() <= lo_ or v.max() >= hi_):
+                        res.violation('workflow:saturated-kept', '%s: events at or beyond the limits %r are still in the returned sample (min %r, max %r)' % (
+                            what, [lo_, hi_], float(v.min()), float(v.max())), one)
+                        break
+            else:
+                res.ok('workflow', True)
+        res.sample({'workflow rows': len(samples), 'units': [s_['units'] for s_ in samples[:3]]})
+    finally:
+        shutil.rmtree(dd, ignore_errors=True)
+
+
+_WF = [0]
+
+
 def run_case(c):
     import FlowCal
     res = Result()
     k = c['kind']
+    if k == 'workflow':
+        with warnings.catch_warnings():
+            warnings.simplefilter('ignore')
+            try:
+                run_workflow(c, res)
+            except Exception as e:
+                res.violation('workflow:raises:%s' % type(e).__name__, 'the Excel workflow on a well-formed generated experiment raised %s: %s' % (type(e).__name__, e), dict(c))
+        return res
     with warnings.catch_warnings():
         warnings.simplefilter('ignore')
         if k == 'rfi-log':
